@@ -17,12 +17,13 @@ def build_effects(P, S):
     extract.REPO = S.REPO
     res = extract.analyse()
     aux = set(res.get('auxiliary', []))
-    srcs = [rel for rel, _ in extract.ANCHORS + extract.AUXILIARY]
+    srcs = [rel for rel, _ in extract.ANCHORS + extract.AUXILIARY + extract.EXTENDED]
     out = ['import FinVerif.Model.C18', '', 'namespace FinVerif.Gen.Effects', 'open FinVerif.C18', '']
     names = []
-    for cls, c in res['classes'].items():
+    ext_names = []
+    for cls, c in list(res['classes'].items()) + list(res.get('extended', {}).items()):
         ident = cls.replace('<', 'mod_').replace('>', '')
-        names.append(ident)
+        (ext_names if cls in res.get('extended', {}) else names).append(ident)
         ms = []
         for m, s in c['methods'].items():
             ms.append('    { name := "%s", isPublic := %s,\n      rbw := %s,\n      writes := %s,\n      must := %s,\n'
@@ -31,10 +32,20 @@ def build_effects(P, S):
                          _strs(s['pwrites']), _strs(s['pcalls']), _strs(s['gwrites']), _strs(s['greads']),
                          'true' if s['text'] else 'false'))
         out.append(f'/-- {c["file"]} -/')
-        out.append(f'def {ident} : ClassEff :=\n  {{ name := "{cls}", anchored := {"false" if cls in aux else "true"},\n'
+        out.append(f'def {ident} : ClassEff :=\n  {{ name := "{cls}", anchored := {"false" if (cls in aux or cls in res.get("extended", {})) else "true"},\n'
                    f'    ctor := {_strs(c["ctor"])},\n    methods := [\n' + ',\n'.join(ms) + '] }\n')
     out.append('def classes : List ClassEff := [' + ', '.join(names) + ']\n')
     out.append('def mutableGlobals : List String := ' + _strs(res['mutable_globals']) + '\n')
+    out.append('/-- classes outside the property\'s anchors (never part of `classes`): judged by Props/C18c -/')
+    out.append('def extendedClasses : List ClassEff := [' + ', '.join(ext_names) + ']\n')
+    out.append('/-- attributes assigned in the class body (class, names), for the extended classes -/')
+    out.append('def extendedClassAttrs : List (String × List String) := [' + ', '.join(
+        '("%s", %s)' % (cls, _strs(c['class_attrs'])) for cls, c in res.get('extended', {}).items()) + ']\n')
+    out.append('/-- EVERY place in every module under financepy/ where a function body changes state that outlives the call '
+               'and belongs to no object the caller holds: (file, function, kind, name) — see `module_state` in '
+               'tools/effects/extract.py -/')
+    out.append('def moduleState : List (String × String × String × String) := [' + ',\n  '.join(
+        '(%s, %s, %s, %s)' % tuple(_strs([x])[1:-1] for x in row) for row in res.get('module_state', [])) + ']\n')
     out.append('end FinVerif.Gen.Effects\n')
     return sorted(set(srcs)), '\n'.join(out)
 
